@@ -17,7 +17,7 @@ Print Assumptions C06_full_refuted.
    the result is the list of matching leaves, depth first in declaration order *)
 Theorem C06_get_nodes_partial : forall t v pat, wfb t = true -> resolvable t pat = true ->
   get_nodes t v pat = Ok (path_denotation t v pat).
-Proof. exact get_nodes_correct. Qed.
+Proof. exact (get_nodes_correct nofix). Qed.
 Print Assumptions C06_get_nodes_partial.
 
 Theorem C06_no_duplicates : forall t v pat, wfb t = true -> NoDup (path_denotation t v pat).
@@ -26,7 +26,7 @@ Print Assumptions C06_no_duplicates.
 
 Theorem C06_get_nodes_no_duplicates : forall t v pat l, wfb t = true -> resolvable t pat = true ->
   get_nodes t v pat = Ok l -> NoDup l.
-Proof. exact get_nodes_NoDup. Qed.
+Proof. exact (get_nodes_NoDup nofix). Qed.
 Print Assumptions C06_get_nodes_no_duplicates.
 
 (* what the denotation is: exactly the leaves whose address matches and that carry the variable *)
@@ -48,7 +48,7 @@ Print Assumptions C06_order_invariant.
 (* the exceptions outside the guard *)
 Theorem C06_get_nodes_keyerror : forall ch v p r rest, String.eqb p all = false -> ~ In p (map fst ch) ->
   get_nodes (Circ ch) v (p :: r :: rest) = Err KeyError.
-Proof. exact get_nodes_keyerror. Qed.
+Proof. exact (fun ch v p r rest => get_nodes_keyerror nofix ch v p r rest eq_refl). Qed.
 Print Assumptions C06_get_nodes_keyerror.
 Theorem C06_refuted_D31 : wfb two_branches = true /\
   get_nodes two_branches (Some ox) ["all"; "c1"; "n0"] = Err KeyError /\
@@ -70,53 +70,114 @@ Print Assumptions C06_refuted_too_short.
 (* output stage: dict form resolves every key to the denotation of its path *)
 Theorem C06_positions_dict : forall t reqs, wfb t = true -> reqs_resolvable t reqs = true -> all_found t reqs = true ->
   positions_dict t reqs = Ok (flat_map (entries_of t) reqs).
-Proof. exact positions_dict_spec. Qed.
+Proof. exact (positions_dict_spec nofix). Qed.
 Print Assumptions C06_positions_dict.
 (* ... and refuses a key whose path denotes nothing (fix D48) *)
 Theorem C06_missing_output_refused : forall t key pat o x rest, wfb t = true -> resolvable t pat = true ->
   path_denotation t (Some (o, x)) pat = [] -> positions_dict t ((key, (pat, (o, x))) :: rest) = Err PyRatesException.
-Proof. exact positions_dict_missing. Qed.
+Proof. exact (positions_dict_missing nofix). Qed.
 Print Assumptions C06_missing_output_refused.
 Theorem C06_multi_label : forall (key : string) n o x,
   key :: firstn (List.length (var_key n o x) - 2) (var_key n o x) ++ [last2 (var_key n o x)] = key :: n ++ [opvar o x].
 Proof. exact multi_label. Qed.
 Print Assumptions C06_multi_label.
-(* on a fresh template a variable is read from the vector of its representative at its own unit index ... *)
-Theorem C06_source_fresh : forall L v vec i, tsvi L = [] -> source_of L v = Ok (vec, i) ->
-  passoc v (vidx L) = Some i /\ passoc (relabel L v) (f2b L) = Some vec /\ exists sl, assoc vec (svi L) = Some sl.
+(* on a fresh template a variable is read from the vector of its representative at its own unit indices ... *)
+Theorem C06_source_fresh : forall L v vec idxs, tsvi L = [] -> source_of L v = Ok (vec, idxs) ->
+  passoc v (vidx L) = Some idxs /\ passoc (relabel L v) (f2b L) = Some vec /\ exists sl, assoc vec (svi L) = Some sl.
 Proof. exact source_of_fresh. Qed.
 Print Assumptions C06_source_fresh.
-(* ... and slicing the vector out of the state row and indexing it reads state slot pos(var) *)
-Theorem C06_column_is_slot : forall (d : nat) L (row : list nat) v src k, source_of L v = Ok src -> pos L v = Some k ->
-  column_value d L row src = nth_error row k.
+(* ... and slicing the vector out of the state row and indexing it reads state slot pos(var, unit) *)
+Theorem C06_column_is_slot : forall (d : nat) L (row : list nat) v vec idxs j i k, source_of L v = Ok (vec, idxs) ->
+  nth_error idxs j = Some i -> pos L v j = Some k -> column_value d L row (vec, i) = nth_error row k.
 Proof. exact (@column_value_slot nat). Qed.
 Print Assumptions C06_column_is_slot.
+
+(* WHAT run() RETURNS.  For every circuit tree, layout, and set of requests — dict form with single-variable keys,
+   wildcard keys, several keys, or list form; scalar nodes and populations (U = units per population node) — under the
+   stated decidable guards the DataFrame has exactly the columns of the specification (one per unit of every denoted
+   variable, request order, declaration order, unit order; label = key | key, node levels, op/var | path; a population
+   adds the unit number), and the column labelled l is read from the backend source (vector, index) of the unit that
+   l names.  With C06_column_is_slot that source is state slot pos(variable, unit). *)
+Theorem C06_run_returns : forall t L U f reqs, f <> ListFormOld ->
+  wfb t = true -> reqs_resolvable t reqs = true -> all_found t reqs = true -> reqs <> [] ->
+  (f = DictForm -> no_overlap t reqs = true /\ no_pop_in_wildcard t U reqs = true) ->
+  covers L U (requested t f reqs) = true ->
+  run_columns t L f reqs = Ok (map (col_of L) (spec_columns t U f reqs)).
+Proof. exact run_columns_spec_asis. Qed.
+Print Assumptions C06_run_returns.
+(* the same two theorems for the code WITH the two proposed repairs (fixes/proposed_fix_C06_D31.diff, _overlap.diff):
+   a missing named level denotes nothing instead of raising, overlapping wildcard keys are served; the guards
+   names_resolve and no_overlap are gone *)
+Theorem C06_get_nodes_repaired : forall t v pat, wfb t = true -> resolvable_gen bothfixes t pat = true ->
+  get_nodes_gen bothfixes t v pat = Ok (path_denotation t v pat).
+Proof. exact (get_nodes_correct bothfixes). Qed.
+Print Assumptions C06_get_nodes_repaired.
+Theorem C06_run_returns_repaired : forall t L U f reqs, f <> ListFormOld ->
+  wfb t = true -> reqs_resolvable_gen bothfixes t reqs = true -> all_found t reqs = true -> reqs <> [] ->
+  (f = DictForm -> no_pop_in_wildcard t U reqs = true) ->
+  covers L U (requested t f reqs) = true ->
+  run_columns_gen bothfixes t L f reqs = Ok (map (col_of L) (spec_columns t U f reqs)).
+Proof. exact run_columns_spec_repaired. Qed.
+Print Assumptions C06_run_returns_repaired.
+(* the index map of apply() is injective (C04's theorem; a hypothesis here): two different requested units are read
+   from two different state slots, so no column can carry another unit's trajectory *)
+Theorem C06_distinct_units_distinct_slots : forall L,
+  (forall v j v' j' k, pos L v j = Some k -> pos L v' j' = Some k -> v = v' /\ j = j') ->
+  forall v j v' j' k k', pos L v j = Some k -> pos L v' j' = Some k' -> (v, j) <> (v', j') -> k <> k'.
+Proof. exact distinct_units_distinct_slots. Qed.
+Print Assumptions C06_distinct_units_distinct_slots.
+(* populations: one column per unit, in unit order, label (key, i); also next to a plain key and in the list form *)
+Theorem C06_population_columns :
+  run_columns pop_tree L_pop DictForm [("p", (["P"], ox)); ("a", (["B"], ox))] =
+    Ok [(["p"; "0"], ("x_v1", 0)); (["p"; "1"], ("x_v1", 1)); (["p"; "2"], ("x_v1", 2)); (["a"], ("x", 1))] /\
+  spec_columns pop_tree U_pop DictForm [("p", (["P"], ox)); ("a", (["B"], ox))] =
+    [(["p"; "0"], (["P"; "op"; "x"], 0)); (["p"; "1"], (["P"; "op"; "x"], 1)); (["p"; "2"], (["P"; "op"; "x"], 2));
+     (["a"], (["B"; "op"; "x"], 0))] /\
+  pos L_pop ["P"; "op"; "x"] 2 = Some 4 /\
+  run_columns pop_tree L_pop ListForm [("", (["all"], ox))] =
+    Ok [(["A/op/x"], ("x", 0)); (["B/op/x"], ("x", 1)); (["P/op/x"; "0"], ("x_v1", 0)); (["P/op/x"; "1"], ("x_v1", 1));
+        (["P/op/x"; "2"], ("x_v1", 2))].
+Proof. exact population_columns. Qed.
+Print Assumptions C06_population_columns.
+Theorem C06_population_in_wildcard_refuted :
+  run_columns pop_tree L_pop DictForm [("w", (["all"], ox))] = Err ValueError /\
+  List.length (spec_columns pop_tree U_pop DictForm [("w", (["all"], ox))]) = 5 /\
+  no_pop_in_wildcard pop_tree U_pop [("w", (["all"], ox))] = false.
+Proof. exact population_in_wildcard_refuted. Qed.
+Print Assumptions C06_population_in_wildcard_refuted.
+Example C06_run_returns_nonvacuous :
+  let reqs := [("p", (["P"], ox)); ("a", (["B"], ox))] in
+  wfb pop_tree = true /\ reqs_resolvable pop_tree reqs = true /\ all_found pop_tree reqs = true /\
+  no_overlap pop_tree reqs = true /\ no_pop_in_wildcard pop_tree U_pop reqs = true /\
+  covers L_pop U_pop (requested pop_tree DictForm reqs) = true.
+Proof. exact run_returns_nonvacuous. Qed.
+Print Assumptions C06_run_returns_nonvacuous.
 
 (* refutations of the output stage (witnesses replayed on the real code: corpus/C06) *)
 Theorem C06_list_form_old_refuted :
   run_columns flat3 L3 ListFormOld [("", (["B"], ox))] = Ok [(["A/op/x"], ("x", 0))] /\
   run_columns flat3 L3 ListForm [("", (["B"], ox))] = Ok [(["B/op/x"], ("x", 1))] /\
-  spec_columns flat3 ListForm [("", (["B"], ox))] = [(["B/op/x"], ["B"; "op"; "x"])] /\
-  pos L3 ["B"; "op"; "x"] = Some 1.
+  spec_columns flat3 [] ListForm [("", (["B"], ox))] = [(["B/op/x"], (["B"; "op"; "x"], 0))] /\
+  pos L3 ["B"; "op"; "x"] 0 = Some 1.
 Proof. exact list_old_refuted. Qed.
 Print Assumptions C06_list_form_old_refuted.
 (* D43 (repaired by a fix: commit): a plain key next to a wildcard key keeps its label *)
 Theorem C06_plain_key_regression :
   map fst (match run_columns flat3 L3 DictForm [("ab", (["B"], ox)); ("a", (["all"], ox))] with Ok l => l | Err _ => [] end) =
-  map fst (spec_columns flat3 DictForm [("ab", (["B"], ox)); ("a", (["all"], ox))]) /\
+  map fst (spec_columns flat3 [] DictForm [("ab", (["B"], ox)); ("a", (["all"], ox))]) /\
   run_columns flat3 L3 DictForm [("ab", (["B"], ox)); ("a", (["all"], ox))] =
     Ok [(["ab"], ("x", 1)); (["a"; "A"; "op/x"], ("x", 0)); (["a"; "B"; "op/x"], ("x", 1)); (["a"; "C"; "op/x"], ("x", 2))].
 Proof. exact plain_key_regression. Qed.
 Print Assumptions C06_plain_key_regression.
 Theorem C06_overlap_refuted :
   run_columns flat3 L3 DictForm [("a", (["all"], ox)); ("b", (["all"], ox))] = Err KeyError /\
-  List.length (spec_columns flat3 DictForm [("a", (["all"], ox)); ("b", (["all"], ox))]) = 6 /\
+  List.length (spec_columns flat3 [] DictForm [("a", (["all"], ox)); ("b", (["all"], ox))]) = 6 /\
   no_overlap flat3 [("a", (["all"], ox)); ("b", (["all"], ox))] = false.
 Proof. exact overlap_refuted. Qed.
 Print Assumptions C06_overlap_refuted.
 Theorem C06_stale_indices_refuted :
-  source_of (L_stale true) ["N1"; "op"; "x"] = Ok ("x", 4) /\ source_of (L_stale false) ["N1"; "op"; "x"] = Ok ("x", 1) /\
-  source_of (L_stale false) ["N4"; "op"; "x"] = Ok ("x", 4).
+  source_of (L_stale true) ["N1"; "op"; "x"] = Ok ("x", [4]) /\ source_of (L_stale false) ["N1"; "op"; "x"] = Ok ("x", [1]) /\
+  source_of (L_stale false) ["N4"; "op"; "x"] = Ok ("x", [4]).
 Proof. exact stale_indices_refuted. Qed.
 Print Assumptions C06_stale_indices_refuted.
 
